@@ -57,10 +57,12 @@ struct Op {
 inline const std::vector<const char*>& angleTable() {
     static const std::vector<const char*> t = {"0.0", "1.5707964", "3.1415927", "6.2831855", "0.000000001", "1000.0", "0.3", "1.1", "2.7", "4.4", "5.9", "0.7853982", "2.0943951", "12.566371", "0.0001", "0.0003", "0.00005", "0.0006", "0.00001", "0.000003",
                                               // computed at run time by helper functions: a float product that overflows, and inf - inf
-                                              "infAngle()", "nanAngle()"};
+                                              "infAngle()", "nanAngle()",
+                                              // fifteen integer digits: the printed line is longer than any fixed small buffer
+                                              "442139871805440.0"};
     return t;
 }
-inline bool angleComputed(const Op& o) { return (size_t)o.angle % angleTable().size() >= 20; }
+inline bool angleComputed(const Op& o) { size_t k = (size_t)o.angle % angleTable().size(); return k == 20 || k == 21; }
 inline double angleValue(const Op& o) {
     if (angleComputed(o)) return (size_t)o.angle % angleTable().size() == 20 ? (o.angleNeg ? -HUGE_VAL : HUGE_VAL) : std::nan("");
     double v = (double)strtof(angleTable()[(size_t)o.angle % angleTable().size()], nullptr);
@@ -556,6 +558,7 @@ inline Plan generate(sim::Rng& g, const GenOptions& go) {
             else if (g.chance(0.08)) o.loop = 2 + (int)g.below(2);
             if (go.hugeLoopProb > 0 && !hugeLoopUsed && o.kind == GATE && g.chance(go.hugeLoopProb)) { o.loop = (1 << 20) + 1 + (int)g.below(3); o.gate = (int)g.below(4); o.path = 0; hugeLoopUsed = true; }
             if (go.nonFiniteAngleProb > 0 && o.gate >= 4 && o.kind == GATE && g.chance(go.nonFiniteAngleProb)) { o.angle = 20 + (int)g.below(2); stop = true; }
+            else if (o.gate >= 4 && g.chance(0.01)) o.angle = 22;
             p.ops.push_back(o);
         } else if (u < 0.78 && active.size() >= 2) {
             o.kind = CX;
